@@ -114,6 +114,8 @@ def run(chk, ctx) -> None:
     _reserved(chk, ctx)
     _engine_cards(chk, ctx)
     _destinations(chk, ctx)
+    _rows(chk, ctx)
+    _show_fill(chk, ctx)
     from .cover import initial_deck
     initial_deck(chk, ctx)
 
@@ -335,3 +337,97 @@ def _destinations(chk, ctx) -> None:
     chk.ob('C06.destinations', 'State._muck_hole_cards:emptied', {'hole_cards', 'hole_card_statuses'} <= cleared, mk.loc,
            'a mucked hand is emptied: its cards and their facings go together (the two per-player lists stay in step)', got=sorted(x for x in cleared if x))
     chk.floor('C06.destinations', 6)
+
+
+def _fresh_row(e) -> bool:
+    return (isinstance(e, ast.List) and not e.elts) or (isinstance(e, ast.Call) and isinstance(e.func, ast.Name) and e.func.id == 'list' and not e.args)
+
+
+def _rows(chk, ctx) -> None:
+    """the per-player hands and the per-street discard piles are separate lists: every row is created as a list of its own, once per
+    player / street (a replicated row - ``[[]] * n`` - is one list under n names: a card put in one pile shows up in all of them)"""
+    fi = ctx.sfi('_setup')
+    want = {'hole_cards': 'player_indices', 'hole_card_statuses': 'player_indices', 'discarded_cards': 'street_indices'}
+    seen = {}
+    parents = {}
+    for n in ast.walk(fi.node):
+        for c in ast.iter_child_nodes(n):
+            parents[c] = n
+    for n in walk_no_nested(fi.node):
+        if isinstance(n, ast.Call) and isinstance(n.func, ast.Attribute) and self_attr(n.func.value) in want:
+            attr = self_attr(n.func.value)
+            ok = False
+            if n.func.attr == 'append' and len(n.args) == 1 and _fresh_row(n.args[0]):
+                loop = parents.get(n)
+                while loop is not None and not isinstance(loop, ast.For):
+                    loop = parents.get(loop)
+                ok = loop is not None and T.norm(loop.iter) in (('self', want[attr]), T.spec(f'range(self.{want[attr][:-8]}_count)'))
+            elif n.func.attr == 'extend' and len(n.args) == 1 and isinstance(n.args[0], (ast.ListComp, ast.GeneratorExp)) and _fresh_row(n.args[0].elt) \
+                    and len(n.args[0].generators) == 1 and not n.args[0].generators[0].ifs:
+                ok = T.norm(n.args[0].generators[0].iter) in (('self', want[attr]), T.spec(f'range(self.{want[attr][:-8]}_count)'))
+            seen.setdefault(attr, []).append((ok, n))
+    for attr in sorted(want):
+        sites = seen.get(attr, [])
+        bad = [n for ok, n in sites if not ok]
+        chk.ob('C06.rows', f'State._setup:{attr}', len(sites) == 1 and not bad, ctx.loc(fi, bad[0]) if bad else fi.loc,
+               f'one new empty list per {"player" if "hole" in attr else "street"} (never one list replicated)', got=[stmt_text(n) for _, n in sites])
+    # nowhere in the engine is a mutable row replicated
+    reps = []
+    n_mult = 0
+    for name, m in ctx.state.methods.items():
+        for n in walk_no_nested(m.node):
+            if isinstance(n, ast.BinOp) and isinstance(n.op, ast.Mult):
+                for side in (n.left, n.right):
+                    if isinstance(side, (ast.List, ast.Tuple)):
+                        n_mult += 1
+                        if any(isinstance(x, (ast.List, ast.Dict, ast.Set, ast.ListComp, ast.DictComp, ast.SetComp)) or
+                               (isinstance(x, ast.Call) and isinstance(x.func, ast.Name) and x.func.id in ('list', 'dict', 'set', 'deque', 'defaultdict'))
+                               for x in side.elts):
+                            reps.append((m, n))
+    chk.analysed['replications_examined'] = n_mult
+    chk.ob('C06.rows', 'State:no_replicated_rows', not reps, ctx.loc(reps[0][0], reps[0][1]) if reps else ctx.state.loc,
+           'no list of rows is built by replicating one mutable row', got=[ast.unparse(n) for _, n in reps][:3])
+    chk.floor('C06.rows', 4)
+
+
+def _show_fill(chk, ctx) -> None:
+    """showing some of one's cards before the last street: the rest of the hand that is kept (face down) is the held known cards that
+    are NOT among the shown ones, cut to the number of places left - otherwise a shown card is kept a second time and another card
+    of the hand goes back to the deck"""
+    fi = ctx.sfi('verify_hole_cards_showing_or_mucking')
+    n_paths = 0
+    ok = True
+    why = ''
+    for p in ctx.paths(fi):
+        if not p.returned:
+            continue
+        r = unversion(p.outcome[1])
+        if r[0] != 'tuple' or len(r[1]) != 5:
+            continue
+        hole, who = r[1][2], r[1][4]
+        cs = [unversion(c) for c in p.conds(flat=True)]
+        if T.spec('self.street is not self.streets[-1]', boolean=True) not in cs or hole[0] in ('const',) or ('const', False) in cs:
+            continue
+        if not T.mentions(hole, lambda t: t == ('name', 'status_or_hole_cards')):
+            continue        # nothing was named: the whole hand is tabled
+        n_paths += 1
+        held = ('sub', ('self', 'hole_cards'), who)
+        good = False
+        for t in T.subterms(hole):
+            if len(t) == 3 and t[0] == 'sub' and isinstance(t[2], tuple) and len(t[2]) == 4 and t[2][0] == 'slice' and t[2][1] == ('const', None) \
+                    and t[2][3] == ('const', None):
+                inner = [c for c in T.subterms(t[1]) if len(c) == 4 and c[0] == 'comp' and len(c[3]) == 1]
+                for c in inner:
+                    var, it, conds = c[3][0]
+                    excl = [k for k in conds if k[0] == 'notin' and k[1] == var]
+                    if c[2] == (var,) and excl and T.mentions(it, lambda x: x == held) and \
+                            (var in conds or T.truthy(var) in conds or any(len(q) == 4 and q[0] == 'comp' and (q[3][0][0] in q[3][0][2]) for q in T.subterms(it))):
+                        shown = excl[0][2]
+                        want_n = T.spec('len(H) - len(S)', {'H': held, 'S': shown})
+                        good |= t[2][2] == want_n and T.mentions(hole, lambda x: x == shown)
+        if not good:
+            ok = False
+            why = T.show(hole)[:200]
+    chk.ob('C06.show_fill', f'State.{fi.name}', ok and n_paths > 0, fi.loc,
+           'when the cards to show are named before the last street, the cards kept face down are the known held cards not among the shown ones, '
+           'as many as there are places left', got=why or f'{n_paths} path(s)')
